@@ -35,6 +35,7 @@ class Recorder:
 
     def put(self, packet):
         self.run.outs.append(packet)
+        self.run.ledger.append(('dep', self.run.kstep, self.run.env.now, packet))
         self.run.hist.append(('dep', self.run.env.now, packet))
         self.run.departures.append((self.run.env.now, packet))
 
@@ -85,9 +86,15 @@ class StampRun:
         self.raised = None
         self.steps = 0
         self.peers = []                # StampRuns of other scheduler instances living in the same Environment (family `multi`)
+        # the harness's own account for `start_oracle`: ('arr' | 'send' | 'dep', kernel step, instant, packet) in the order the taps saw
+        # them - put() returned, send_packet(packet) was called (the transmission starts), out.put(packet).  `kstep` counts the
+        # kernel steps (env.step() calls) of the case: the puts of one step are one burst handed over by one process activation
+        self.ledger, self.kstep = [], 0
         sched.out = Recorder(self)
         self._orig_put = sched.put
         sched.put = self._tapped_put
+        self._orig_send = sched.send_packet
+        sched.send_packet = self._tapped_send
 
     # -- snapshots ----------------------------------------------------------------------------
     def snap(self, now=None):
@@ -125,12 +132,17 @@ class StampRun:
             self.raised = ('put', type(x).__name__, str(x), packet.packet_id, packet.flow_id)
             raise StopRun()
         self.arrivals.append((self.env.now, packet))
+        self.ledger.append(('arr', self.kstep, self.env.now, packet))
         key = None
         for it in self.sched.store.items:
             if getattr(it, 'item', None) is packet:
                 key = tuple(it.priority) if isinstance(it.priority, tuple) else (it.priority,)
         self.hist.append(('arr', self.env.now, packet, key, self.dev_figures(), self.public()))
         self.obs.append(f'put acc | {self.snap()}')
+
+    def _tapped_send(self, packet):
+        self.ledger.append(('send', self.kstep, self.env.now, packet))
+        return self._orig_send(packet)
 
     def dev_figures(self):
         s = self.sched
@@ -174,6 +186,7 @@ class StampRun:
 
     def _pre(self, t):
         env, loop, s = self.env, self.loop, self.sched
+        self.kstep += 1
         if t > env.now:
             self.acts.append(f'tick {bits(t)}')
             self.obs.append(f'tick - | {self.snap(now=t)}')
@@ -545,6 +558,7 @@ def expected_stamps(c, run):
     for j, (pc, pr) in enumerate(zip(c.get('peers') or [], getattr(run, 'peers', []))):
         exp_p, fp = _expected_stamps(pc, pr)
         fo, _, _ = order_oracle(pr, exp_p)
+        fo = start_oracle(pr, exp_p)[0] + fo
         for f in fp + fo:
             f['what'] = f'instance {j + 2} of {len(run.peers) + 1} schedulers in one Environment ({pc["kind"]}, classes {sorted(k for k, _ in pc["table"])}): ' + f['what']
             fails.append(f)
@@ -662,3 +676,68 @@ def order_oracle(run, exp):
                                       f'{x.packet_id} (stamp {kx[0]}, arrived {kx[1]}) with {why} was waiting{born}', 'signature': 'stamp-order'})
                 break
     return fails, ties, full_ties
+
+
+def start_oracle(run, exp):
+    """"Each of them always transmits next the waiting packet with the smallest stamp (the earlier arrival on equal stamps)", restated
+    at the START of every transmission - the call of `send_packet(p)` - over the harness's own account, not over the contents of the
+    scheduler's store: waiting = handed to put() (which returned) and send_packet not yet called for it.
+
+    Which of the waiting packets must p be compared with?  The scheduler decides in an activation of its own process, never in the
+    middle of the activation of the process that hands a burst over: the packets put in one kernel step (back-to-back put() calls of
+    one source activation) reach it together.  Its decision for p therefore comes after the whole step in which p itself arrived, and
+    after the step in which the previous transmission ended (out.put).  Every packet waiting at the end of the later of these two steps
+    has to be in the comparison.  A packet that arrives in a LATER step - between the decision and the call of send_packet, which the
+    unchanged code separates by one kernel event - may or may not have been seen (DESIGN section 3, "decision burst"): not judged.
+    Equal (stamp, arrival instant): either order.  -> (failures, statistics)"""
+    fails, st = [], collections.Counter()
+    waiting, last_dep, sends = {}, 0, 0
+    burst = {}                                    # kernel step -> packets put in it while nothing was waiting or in transmission before the step
+    busy = None
+    for what, k, t, p in run.ledger:
+        if what == 'arr':
+            if (not waiting and busy is None) or (k in burst):
+                burst.setdefault(k, []).append(p)
+            waiting[id(p)] = (p, k)
+        elif what == 'dep':
+            last_dep = k
+            if busy is p:
+                busy = None
+        else:
+            me = waiting.pop(id(p), None)
+            busy = p
+            kc = exp.get(p.packet_id)
+            if me is None or kc is None:
+                continue
+            sends += 1
+            bound = max(me[1], last_dep)
+            later = 0
+            for x, kx_step in waiting.values():
+                kx = exp.get(x.packet_id)
+                if kx is None:
+                    continue
+                if kx_step > bound:
+                    later += 1
+                    continue
+                if kx < kc:
+                    why = 'a smaller stamp' if kx[0] < kc[0] else 'the same stamp and an earlier arrival instant'
+                    how = ('in the same kernel step (the same burst of back-to-back put() calls) as' if kx_step == me[1] else 'in an earlier kernel step than')
+                    fails.append({'what': f'at {t} the transmission of packet {p.packet_id} (stamp {kc[0]}, arrived {kc[1]}) was started (send_packet) while packet '
+                                          f'{x.packet_id} (stamp {kx[0]}, arrived {kx[1]}) with {why} was waiting: it had been handed to put() {how} packet {p.packet_id}'
+                                          + (f' and before the previous transmission ended' if kx_step <= last_dep and last_dep > me[1] else '')
+                                          + ' (waiting = accepted by put() and send_packet not yet called, by the harness\'s own account)',
+                                  'signature': 'stamp-order-at-start'})
+                    break
+            st['arrivals between the decision and the start of a transmission (not judged)'] += later
+            if fails:
+                break
+    st['transmission starts judged'] = sends
+    # how often the shape occurs: a burst of >= 2 packets handed in one kernel step to a scheduler that was idle (nothing waiting or in transmission), in which
+    # the packet put first does not carry the smallest (stamp, arrival instant)
+    for k, b in burst.items():
+        if len(b) >= 2:
+            st['bursts of >= 2 packets handed to an idle scheduler in one kernel step'] += 1
+            ks = [exp.get(x.packet_id) for x in b]
+            if all(y is not None for y in ks) and min(ks) < ks[0]:
+                st['... of which the packet put first does not carry the smallest stamp'] += 1
+    return fails, st
